@@ -1,4 +1,10 @@
 use vmon::m_boxcar;
+use vmon::m_layout;
+
+// counts live heap allocations for the leak oracle of the layout mode
+#[global_allocator]
+static ALLOC: m_layout::CountingAlloc = m_layout::CountingAlloc;
+
 use vmon::refm::install_quiet_panic_hook;
 use vmon::report::{Args, Report};
 
@@ -24,6 +30,8 @@ fn main() {
         "lin" => m_boxcar::run_lin(&opts, &mut rep),
         "stress" => m_boxcar::run_stress(&opts, &mut rep, args.u64("small", 0) != 0),
         "drop" => m_boxcar::run_drop(&opts, &mut rep, args.u64("small", 0) != 0),
+        "layout" => m_layout::run_layout(&opts, &mut rep),
+        "exhaust" => m_layout::run_exhaust(&opts, &mut rep),
         "race" => m_boxcar::run_race(
             &opts,
             &mut rep,
